@@ -259,6 +259,19 @@ func lpErrClass(v ssa.Value, at *ssa.BasicBlock, depth int) int {
 			case "fmt.Errorf", "errors.New":
 				return lpErrNonNil
 			}
+			// a wrapper whose every return is a certainly non-nil error
+			if sc.Blocks != nil && depth < 3 && ir.IsErrorType(x.Type()) {
+				rets := ir.Returns(sc)
+				all := len(rets) > 0
+				for _, r := range rets {
+					if len(r.Results) != 1 || lpErrClass(r.Results[0], r.Block(), depth+1) != lpErrNonNil {
+						all = false
+					}
+				}
+				if all {
+					return lpErrNonNil
+				}
+			}
 		}
 	case *ssa.Phi:
 		if depth < 4 {
